@@ -19,11 +19,15 @@ import (
 
 // LockKey identifies a held lock inside one function.
 type LockKey struct {
-	Field *types.Var // mutex field (or embedded sync.Mutex field)
+	Field *types.Var // mutex field (or embedded sync.Mutex field); nil for local mutexes
 	Base  string     // access path of the owner inside the function; "" for singletons
+	Local string     // identity of a local (possibly captured) mutex variable
 }
 
 func (k LockKey) String() string {
+	if k.Field == nil {
+		return k.Local
+	}
 	if k.Base == "" {
 		return k.Field.Name()
 	}
@@ -168,7 +172,18 @@ func (ls *Locksets) lockOp(c *ssa.CallCommon) (LockKey, bool, bool) {
 		}
 	}
 	if fld == nil {
-		return LockKey{}, false, false
+		// a local mutex variable, possibly captured by closures
+		rc := &resolveCtx{p: ls.p}
+		var cell *ssa.Alloc
+		if u, ok := rv.(*ssa.UnOp); ok {
+			cell = rc.cellRoot(u.X)
+		} else {
+			cell = rc.cellRoot(rv)
+		}
+		if cell == nil {
+			return LockKey{}, false, false
+		}
+		return LockKey{Local: "local:" + ls.p.FuncKey(cell.Parent()) + ":" + cell.Comment}, acquire, true
 	}
 	key := LockKey{Field: fld}
 	if owner != nil && !ls.isSingletonOwner(owner.Type()) {
@@ -388,7 +403,7 @@ func (ls *Locksets) translate(call ssa.Instruction, callee *ssa.Function, held l
 	out := lockSet{}
 	c := CallCommonOf(call)
 	for k := range held {
-		if k.Base == "" {
+		if k.Base == "" || k.Field == nil {
 			out[k] = true
 			continue
 		}
@@ -517,7 +532,7 @@ func (ls *Locksets) HeldAt(in ssa.Instruction) []LockKey {
 // lock owner's path must equal base.
 func (ls *Locksets) Holds(in ssa.Instruction, field *types.Var, base string) bool {
 	for k := range ls.at[in] {
-		if k.Field == field && (k.Base == "" || base == "" || k.Base == base) {
+		if k.Field != nil && k.Field == field && (k.Base == "" || base == "" || k.Base == base) {
 			return true
 		}
 	}
